@@ -87,7 +87,7 @@ def main():
         "setup_cmd": "./check build && ./check build-repo",
         "hooks": {
             "guard": "--cfg ellbur_totalmapper_verif",
-            "enable": "RUSTFLAGS='--cfg ellbur_totalmapper_verif' for the harness crate /verif/harness, which includes /repo/src/*.rs by #[path] (set by ./check); /repo itself is never built with the guard on",
+            "enable": "RUSTFLAGS='--cfg ellbur_totalmapper_verif --cfg ellbur_totalmapper_verif_real' for the harness crate /verif/harness, which includes /repo/src/*.rs by #[path] (set by ./check); /repo itself is never built with the guard on. The second flag only has an effect inside cfg(ellbur_totalmapper_verif): it enables the one hook that names the private RealDriver's fields (run_real_driver_on_fds); if only that hook fails to compile on a tree, ./check rebuilds without it and Engine R reports itself unavailable",
             "baseline_off_cmd": "cd /repo && CARGO_NET_OFFLINE=true cargo test --workspace --no-fail-fast --offline",
             "source_commits": repo_hook_commits(),
             "add_only": True,
